@@ -122,7 +122,7 @@ Section Proofs.
   Lemma step_refines s c x s' : Rel s c -> s_step s (to_spec x) = Some s' ->
     exists c', t_step c x = Ok c' /\ Rel s' c'.
   Proof.
-    intros R H. destruct x as [f|n|n| |o|f|f|f| ]; cbn [to_spec s_step] in H; cbn [t_step].
+    intros R H. destruct x as [f|n|n| |o|f|f|f| |o|f|f|f]; cbn [to_spec s_step] in H; cbn [t_step].
     - (* add_assertion *)
       injection H as <-. destruct R as (c0 & E & C). unfold add_assertion. rewrite E. cbn [bind].
       eexists. split; [reflexivity|]. apply clean_Rel.
@@ -151,6 +151,10 @@ Section Proofs.
     - (* reading assertions *)
       injection H as <-. destruct R as (c0 & E & C). unfold assertions. rewrite E. cbn [bind fst].
       exists c0. split; [reflexivity|now apply clean_Rel].
+    - injection H as <-. now apply solve_Rel.
+    - injection H as <-. now apply is_sat_Rel.
+    - injection H as <-. unfold is_valid. now apply is_sat_Rel.
+    - injection H as <-. unfold is_unsat. now apply is_sat_Rel.
   Qed.
 
   Lemma run_refines cs : forall s c s', Rel s c -> s_run s (map to_spec cs) = Some s' ->
@@ -214,7 +218,7 @@ End Proofs.
 
 (* the hypotheses are satisfiable by non-trivial histories *)
 Definition example_history : list (scmd nat) :=
-  [SAdd 0; SPush 2; SAdd 1; SIsSat 7; SSolve (Some 5); SPop 1; SObserve; SReset; SPush 1; SAdd 2;
+  [SAdd 0; SPush 2; SAdd 1; SIsSat 7; SIsValidUnk 6; SSolve (Some 5); SPop 1; SObserve; SReset; SPush 1; SAdd 2;
    SIsValid 3; SPop 1; SAdd 4].
 Example solver_legal_history :
   s_run s_init (map to_spec example_history) = Some ([IAssert 4], []) /\
